@@ -128,6 +128,11 @@ func validRedirectURI(uri string, rootDomains []string) bool {
 	if uri == "" || err != nil || redirectURL.Host == "" {
 		return false
 	}
+	// An IP literal is never inside a root domain. Hostname() of a bracketed IPv6 literal includes
+	// its zone identifier, so "[::1%25.example.com]" would otherwise pass the suffix test below.
+	if strings.HasPrefix(redirectURL.Host, "[") {
+		return false
+	}
 	for _, domain := range rootDomains {
 		if strings.HasSuffix(redirectURL.Hostname(), domain) || redirectURL.Hostname() == strings.TrimLeft(domain, ".") {
 			return true
